@@ -6,6 +6,7 @@ STATUS_KW = "dict[{test_id: any; test_status: any; test_tags: ?anyset; runnable:
 
 
 def register(R):
+    register_c11(R)
     # a downstream StreamResult: every call is one event in its ghost history; it does not raise
     R.shape("Stream",
             startTestRun=dict(event=True, returns="any"),
@@ -38,3 +39,18 @@ def register(R):
                    # otherwise the fallback
                    "implies(not member(rt_prefix(rc), P) and not member(tid, T), one_status(self.fallback, K))",
                ])
+
+
+def register_c11(R):
+    RRR = RR
+    R.fields_of("CopyStreamResult", targets="list[Stream]")
+    R.inline_fn(RR + "_strict_map")
+    # every target, in list order, receives exactly this call with the identical payload (fold `deliver`)
+    R.contract(RRR + "CopyStreamResult.startTestRun", props=["C11"], frame_hist=True, modifies=["$hist"],
+               ensures=["HIST() == deliver(old(HIST()), listof(self.targets), call('startTestRun', [], {}), len(listof(self.targets)))"])
+    R.contract(RRR + "CopyStreamResult.stopTestRun", props=["C11"], frame_hist=True, modifies=["$hist"],
+               ensures=["HIST() == deliver(old(HIST()), listof(self.targets), call('stopTestRun', [], {}), len(listof(self.targets)))"])
+    R.contract(RRR + "CopyStreamResult.status", props=["C11"], params={"args": "tuple", "kwargs": STATUS_KW},
+               requires=["len(args) <= 2"], frame_hist=True, modifies=["$hist"],
+               ensures=["HIST() == deliver(old(HIST()), listof(self.targets), call('status', args, old(dictof(kwargs))), len(listof(self.targets)))",
+                        "dictof(kwargs) == old(dictof(kwargs))"])
